@@ -48,6 +48,7 @@ struct Desc
 	std::vector<std::pair<std::string, std::string> > query, headers, rheaders;
 	int blen; long bseed;
 	int code, rblen; long rbseed;
+	int fsize, fvar; // fsize >= 0: the response body is a file of that size (variant fvar)
 	std::string target;
 };
 
@@ -95,6 +96,15 @@ static Desc makeDesc(Rng& r, long id, bool bodyAllowed)
 	for (int i = 0; i < nrh; i++) d.rheaders.push_back(std::make_pair(std::string(i ? "x-reply-b" : "X-Reply-A"), randText(r, 20, true)));
 	d.rblen = r.chance(60) ? r.below(3000) : L[r.below(14)];
 	d.rbseed = (long)r.below(1000000);
+	d.fsize = -1;
+	d.fvar = 0;
+	if (r.chance(30))
+	{
+		static const int F[] = { 0, 10, 1000, 15999, 16000, 16001, 48000, 70000, 300000, 1000000 };
+		d.fsize = F[r.below(10)];
+		d.fvar = r.range(1, 12);
+		d.code = 200; // (the status of a file response is the server's business: 200 for a whole file)
+	}
 	// the request target as a user of the library builds it: Url::encode(component) per segment / key / value
 	std::string t;
 	if (d.segs.empty()) t = "/";
@@ -111,10 +121,15 @@ static std::string descJson(const Desc& d, int conn, int seq, bool chunked)
 	for (size_t i = 0; i < d.segs.size(); i++) segs += (i ? "," : "") + vj::codes(d.segs[i]);
 	segs += "]";
 	ByteArray rb = makeBody(d.blen, d.bseed), pb = makeBody(d.rblen, d.rbseed);
+	if (d.fsize >= 0)
+	{
+		pb.resize(d.fsize);
+		for (int i = 0; i < d.fsize; i++) pb[i] = fileByte(d.fsize, i, d.fvar);
+	}
 	return "{\"e\":\"send\"," + kv("id", d.id) + "," + kv("conn", conn) + "," + kv("seq", seq) + "," + kv("chunked", chunked ? 1 : 0) +
 	       ",\"req\":{\"method\":" + vj::quote(d.method) + ",\"segs\":" + segs + ",\"query\":" + pairsJson(d.query) + ",\"headers\":" + pairsJson(d.headers) +
 	       "," + kv("blen", d.blen) + ",\"bh\":" + limbs(fnv64((const unsigned char*)rb.data(), (size_t)rb.length())) + "}" +
-	       ",\"resp\":{" + kv("code", d.code) + ",\"headers\":" + pairsJson(d.rheaders) + "," + kv("blen", d.rblen) +
+	       ",\"resp\":{" + kv("code", d.code) + ",\"headers\":" + pairsJson(d.rheaders) + "," + kv("blen", d.rblen) + "," + kv("fsize", d.fsize) +
 	       ",\"bh\":" + limbs(fnv64((const unsigned char*)pb.data(), (size_t)pb.length())) + "},\"target\":" + vj::codes(d.target) + "}";
 }
 
@@ -125,7 +140,8 @@ static vj::Value caseValue(const Desc& d)
 	for (size_t i = 0; i < d.segs.size(); i++) segs += (i ? "," : "") + vj::codes(d.segs[i]);
 	segs += "]";
 	std::string s = "{\"req\":{\"headers\":" + pairsJson(d.headers) + "},\"resp\":{" + kv("code", d.code) + ",\"headers\":" + pairsJson(d.rheaders) +
-	                ",\"kind\":\"bytes\"," + kv("blen", d.rblen) + "," + kv("bseed", d.rbseed) + "}}";
+	                ",\"kind\":\"" + (d.fsize >= 0 ? "file" : "bytes") + "\"," + kv("blen", d.rblen) + "," + kv("bseed", d.rbseed) + "," +
+	                kv("fsize", d.fsize) + "," + kv("fvar", d.fvar) + "}}";
 	return vj::parse(s);
 }
 
